@@ -35,6 +35,10 @@ type c09Case struct {
 	// Cold (lone requests): a password is configured and the node's connections are dropped before every request,
 	// so each request travels right behind the handshake of a freshly dialled connection
 	Cold bool `json:"cold_connections,omitempty"`
+	// Failed: the head request of a pipeline is answered by the proxy itself with an error (its slot has moved to
+	// a node the proxy cannot reach) while requests behind it are answered by their backends at once: all of it
+	// must reach the client promptly
+	Failed *PipeSpec `json:"failed_head,omitempty"`
 }
 
 const c09Delta = time.Second
@@ -61,6 +65,29 @@ func c09Gen(t *rapid.T) c09Case {
 	}
 	c.SplitEach = rapid.SampledFrom([]int{0, 0, 3, 10}).Draw(t, "split")
 	c.Second = rapid.Bool().Draw(t, "second")
+	if rapid.IntRange(0, 9).Draw(t, "failedmode") == 0 {
+		var cs ClientSpec
+		nb := rapid.IntRange(1, 6).Draw(t, "behind")
+		at := rapid.IntRange(0, nb).Draw(t, "failedat")
+		slots := []int{100, 6000, 12000}
+		var movedSlot int
+		for i := 0; i <= nb; i++ {
+			slot := slots[rapid.IntRange(0, 2).Draw(t, "fslot")] + i + 1
+			if i == at {
+				movedSlot = slot
+			}
+			cs.Reqs = append(cs.Reqs, Req{Name: Bin("get"), Args: []Bin{keyFor(slot, 0, i, 0)}})
+		}
+		if rapid.Bool().Draw(t, "separate") {
+			for i := range cs.Reqs {
+				cs.Cuts = append(cs.Cuts, len(cs.Reqs[i].Encode()))
+			}
+			cs.PauseUs = rapid.SampledFrom([]int{200, 2000}).Draw(t, "fpause")
+		}
+		c.Failed = &PipeSpec{Clients: []ClientSpec{cs}, Moved: []SlotNode{{Slot: movedSlot, Node: -1}}}
+		c.Nodes, c.SplitEach, c.Second, c.LatMs = 3, 0, false, []int{0}
+		return c
+	}
 	if rapid.IntRange(0, 7).Draw(t, "latemode") == 0 {
 		cs, plans := genPhased(t, false)
 		c.Late = &PipeSpec{Clients: []ClientSpec{cs}, Plans: plans}
@@ -130,6 +157,34 @@ func (m *lagMeter) finish() time.Duration {
 func c09Exec(c *c09Case) ([]Discrepancy, bool) {
 	var ds []Discrepancy
 	var nt bool
+	if c.Failed != nil {
+		f := getFixture("C09", sut.Config{ServerConns: 1}, 3, 0)
+		spec := *c.Failed
+		spec.DeadAddr = fakecluster.DeadAddr()
+		rc := &refCtx{Owners: f.Owners}
+		exp := expectedFor(&spec.Clients[0], indexPlans(&spec), rc)
+		t0 := time.Now()
+		res := runPipesQuiet(f, &spec, []int{len(exp)}, 4*time.Second, 0, nil)
+		ds = f.checkAlive("C09", nil)
+		cr := &res.Clients[0]
+		if len(ds) == 0 {
+			for i := range exp {
+				if i >= len(cr.Replies) {
+					ds = append(ds, disc("C09/reply-withheld", "request %d of %d was answered by the proxy itself with an error (its slot moved to an unreachable node) and every other request by its backend at once, yet after 4 s only %d replies had reached the client", len(c.Failed.Clients[0].Reqs), len(exp), len(cr.Replies)))
+					break
+				}
+				if late := cr.Times[i].Sub(t0); late > 2500*time.Millisecond {
+					ds = append(ds, disc("C09/reply-withheld", "reply %d of %d reached the client %d ms after the pipeline was sent although nothing kept it (the proxy answers the request for the moved slot itself, the backends answer at once)", i+1, len(exp), late.Milliseconds()))
+					break
+				}
+			}
+		}
+		if len(ds) > 0 {
+			dropFixture(f)
+		}
+		evidence.For("C09").Add("requests_judged", len(exp))
+		return ds, true
+	}
 	if c.Late != nil {
 		f := getFixture("C09", sut.Config{ServerConns: 1, SndBuf: 4096}, 3, 0)
 		rc := &refCtx{Owners: f.Owners}
@@ -429,6 +484,9 @@ func TestC09(t *testing.T) {
 		}
 		if c.Late != nil {
 			cls = []string{"backlog-consumed-in-stages-by-a-late-reader"}
+		}
+		if c.Failed != nil {
+			cls = []string{"proxy-made-error-reply-ahead-of-answered-requests"}
 		}
 		if nt {
 			cls = append(cls, "always-outstanding")
